@@ -42,45 +42,48 @@ func (e simErrVal) Error() string { return fmt.Sprintf("sim value error %d", e.i
 // on broken input and passing the error on.
 const nErrKinds = 16
 
-var libErrs []error
+// libErrs is built once at program start: tasks of C18 stage B run handlers
+// concurrently, so nothing in the harness may be initialised lazily.
+var libErrs = buildLibErrs()
+
+func buildLibErrs() []error {
+	var l []error
+	add := func(err error) {
+		if err == nil {
+			err = simErrVal{99}
+		}
+		l = append(l, err)
+	}
+	_, err := rjson.SkipValue([]byte(`[1,`), nil)
+	add(err)
+	_, err = rjson.SkipValue([]byte(`[1 2]`), nil)
+	add(err)
+	_, err = rjson.SkipValue([]byte(`{"a" 1}`), nil)
+	add(err)
+	_, err = rjson.SkipValue([]byte(``), nil)
+	add(err)
+	_, err = rjson.SkipValueFast([]byte(`{"a":`), nil)
+	add(err)
+	_, err = rjson.ReadNull([]byte(`x`))
+	add(err)
+	_, _, err = rjson.ReadBool([]byte(`x`))
+	add(err)
+	_, _, err = rjson.ReadUint64([]byte(`x`))
+	add(err)
+	_, _, err = rjson.ReadInt64([]byte(`-`))
+	add(err)
+	_, _, err = rjson.ReadFloat64([]byte(``))
+	add(err)
+	_, _, err = rjson.ReadObject([]byte(`null`))
+	add(err)
+	_, _, err = rjson.ReadArray([]byte(`null`))
+	add(err)
+	_, err = rjson.HandleArrayValues([]byte(`["x"]`), rjson.ArrayValueHandlerFunc(func([]byte) (int, error) { return -1, nil }), nil)
+	add(err)
+	return l
+}
 
 func allSimErrors() []error {
-	if libErrs == nil {
-		var l []error
-		add := func(err error) {
-			if err == nil {
-				err = simErrVal{99}
-			}
-			l = append(l, err)
-		}
-		_, err := rjson.SkipValue([]byte(`[1,`), nil)
-		add(err)
-		_, err = rjson.SkipValue([]byte(`[1 2]`), nil)
-		add(err)
-		_, err = rjson.SkipValue([]byte(`{"a" 1}`), nil)
-		add(err)
-		_, err = rjson.SkipValue([]byte(``), nil)
-		add(err)
-		_, err = rjson.SkipValueFast([]byte(`{"a":`), nil)
-		add(err)
-		_, err = rjson.ReadNull([]byte(`x`))
-		add(err)
-		_, _, err = rjson.ReadBool([]byte(`x`))
-		add(err)
-		_, _, err = rjson.ReadUint64([]byte(`x`))
-		add(err)
-		_, _, err = rjson.ReadInt64([]byte(`-`))
-		add(err)
-		_, _, err = rjson.ReadFloat64([]byte(``))
-		add(err)
-		_, _, err = rjson.ReadObject([]byte(`null`))
-		add(err)
-		_, _, err = rjson.ReadArray([]byte(`null`))
-		add(err)
-		_, err = rjson.HandleArrayValues([]byte(`["x"]`), rjson.ArrayValueHandlerFunc(func([]byte) (int, error) { return -1, nil }), nil)
-		add(err)
-		libErrs = l
-	}
 	out := []error{&simErrPtr{1}, simErrVal{2}, io.EOF}
 	return append(out, libErrs...)
 }
